@@ -12,6 +12,7 @@ import CookModel.Lemmas.DiagRefChecks
 import CookModel.Lemmas.DiagExact
 import CookModel.Lemmas.ExtLawsEvents
 import CookModel.Lemmas.DiagExactComp
+import CookModel.Lemmas.DiagEmptyValue
 /-
   C07  Diagnostics are sound, complete and placed on the offending construct.
 
@@ -547,6 +548,91 @@ theorem C07_empty_value (tokens : List Tok) (s : BP α)
       (parseValue (α := α) tokens s).2 ∧
     (parseValue (α := α) tokens s).1.span = ⟨(tokens.head?.map (·.start)).getD (curOff s), curOff s⟩ :=
   parseValue_empty tokens s hnone hemp
+
+/-- **Empty value, at the level of `parse_quantity` and of the ingredient** (lifts `C07_empty_value`).
+    The quantity tokens between the braces are `pre ++ lk ++ vt ++ [%] ++ ut`: blanks/comments `pre`
+    (`scaling_lock` eats them), an optional lock token `=` (`lk`), value tokens `vt` without `%` that do
+    not read as a number/range and whose text is blank, the `%`, the unit tokens.  (Without a lock the
+    value tokens cannot start with a blank or `=`: the blank would belong to `pre`.)  Then, under EVERY
+    extension set, `parse_quantity` pushes EXACTLY `empty-value` (error, parse, labelled with the span
+    of the blank value text) followed by `empty-unit` iff the unit text is blank too, and returns the
+    lock and the unit; and an ingredient cut into no modifier tokens, a non-blank name without alias
+    separator and these quantity tokens returns the ingredient with that quantity and pushes exactly
+    these events.  `{ %g}`, `{=%g}`, `{= %g}`, `{ = %g}`. -/
+theorem C07_empty_value_component (s : BP α) (pre lk vt ut : List Tok) (pct : Tok)
+    (hpre : ∀ t ∈ pre, isWsComment t.kind = true)
+    (hlk : lk = [] ∨ ∃ e, lk = [e] ∧ e.kind = .eq)
+    (hhead : lk = [] → ∀ t0, vt.head? = some t0 → isWsComment t0.kind = false ∧ t0.kind ≠ .eq)
+    (hvp : ∀ t ∈ vt, t.kind ≠ .percent) (hp : pct.kind = .percent)
+    (hnone : numOrRange (α := α) (s.ext.has Gen.EXT_RANGE_VALUES) vt = none)
+    (hemp : (buildText ((vt.head?.map (·.start)).getD
+      (offAt (pre ++ (lk ++ (vt ++ pct :: ut))) (pre.length + lk.length + vt.length))) vt).isTextEmpty s.cs = true) :
+    (Pushed (emptyValueEv (buildText ((vt.head?.map (·.start)).getD
+          (offAt (pre ++ (lk ++ (vt ++ pct :: ut))) (pre.length + lk.length + vt.length))) vt) ::
+        emptyUnitEvs pct ut s.cs) s (parseQuantity (α := α) (pre ++ (lk ++ (vt ++ pct :: ut))) s).2 ∧
+      (parseQuantity (α := α) (pre ++ (lk ++ (vt ++ pct :: ut))) s).1.quantity.val.unit =
+        (if (buildText pct.stop ut).isTextEmpty s.cs then none else some (buildText pct.stop ut)) ∧
+      (parseQuantity (α := α) (pre ++ (lk ++ (vt ++ pct :: ut))) s).1.quantity.val.value.lock = lockSpan lk) ∧
+    (∀ s1 s2 s3 s4 body note, body.quantity = some (pre ++ (lk ++ (vt ++ pct :: ut))) →
+      (s.ext.has Gen.EXT_COMPONENT_ALIAS = false ∨ ∀ t ∈ body.name, t.kind ≠ .or) →
+      (buildText (curOff s2) body.name).isTextEmpty s.cs = false → noteP s3 = (note, s4) →
+      Cut .at s [] body s1 s2 s3 →
+      (∃ q : Loc (PQuantity α), (ingredientP s).1 = some (.ingredient
+          ⟨⟨⟨Modifiers.empty, Span.pos (curOff s1)⟩, none, buildText (curOff s2) body.name, none, some q, note⟩,
+           ⟨curOff s, curOff s4⟩⟩) ∧ q.val.value.lock = lockSpan lk ∧
+          q.val.unit = (if (buildText pct.stop ut).isTextEmpty s.cs then none else some (buildText pct.stop ut))) ∧
+      Pushed (emptyValueEv (buildText ((vt.head?.map (·.start)).getD
+          (offAt (pre ++ (lk ++ (vt ++ pct :: ut))) (pre.length + lk.length + vt.length))) vt) ::
+        emptyUnitEvs pct ut s.cs) s (ingredientP s).2) := by
+  refine ⟨c07e_parseQuantity_empty pre lk vt ut pct s hpre hlk hhead hvp hp hnone hemp, ?_⟩
+  intro s1 s2 s3 s4 body note hq ha hn hnote hc
+  have q4 : Same s s4 := hc.same.trans (noteP_same hnote)
+  have ht := c07e_ingredientTail_q (α := α) (curOff s) (curOff s4) (curOff s1) (curOff s2) body note s4 _ hq
+    (by rw [q4.2.1]; exact ha) (by rw [q4.1]; exact hn)
+    (emptyValueEv (buildText ((vt.head?.map (·.start)).getD
+      (offAt (pre ++ (lk ++ (vt ++ pct :: ut))) (pre.length + lk.length + vt.length))) vt) ::
+        emptyUnitEvs pct ut s.cs)
+    (fun r => r.quantity.val.unit =
+        (if (buildText pct.stop ut).isTextEmpty s.cs then none else some (buildText pct.stop ut)) ∧
+      r.quantity.val.value.lock = lockSpan lk)
+    (fun sq qq => by
+      have h := c07e_parseQuantity_empty pre lk vt ut pct sq hpre hlk hhead hvp hp
+        (by rw [qq.2.1, q4.2.1]; exact hnone) (by rw [qq.1, q4.1]; exact hemp)
+      rw [qq.1, q4.1] at h
+      exact h)
+  unfold Sat at ht
+  rw [← ingredientP_cut hc hnote] at ht
+  obtain ⟨p, q, ⟨hu, hl⟩, hr⟩ := ht
+  exact ⟨⟨q.quantity, hr, hl, hu⟩, (q4.pushed.trans p).cast (by simp)⟩
+
+/-- **… the two spellings named in the catalogue: `@x{ %g}` and `@x{=%g}`** (no value token at all).
+    With `vt = []` the two hypotheses on the value hold by themselves, and the label of `empty-value` is
+    the POSITION right after the blanks and the lock, i.e. where the value should have been. -/
+theorem C07_empty_value_component_blank (s : BP α) :
+    numOrRange (α := α) (s.ext.has Gen.EXT_RANGE_VALUES) [] = none ∧
+    (∀ off, (buildText ((([] : List Tok).head?.map (·.start)).getD off) []).isTextEmpty s.cs = true) ∧
+    (∀ off, emptyValueEv (α := α) (buildText ((([] : List Tok).head?.map (·.start)).getD off) []) =
+      .error ⟨.error, .parse, "empty-value", [Span.pos off]⟩) := by
+  refine ⟨?_, fun off => rfl, fun off => rfl⟩
+  cases s.ext.has Gen.EXT_RANGE_VALUES <;> rfl
+
+/-! non-vacuity: `@x{ %g}` and `@x{=%g}`: the cut exists, the quantity tokens have the shape
+    `pre ++ lk ++ [] ++ [%] ++ ut`, and `ingredient` pushes exactly one `empty-value` at offset 4 -/
+def C07_exEmptyVal : BP Rat :=
+  ⟨[⟨.at, ['@'], 0⟩, ⟨.word, ['x'], 1⟩, ⟨.openBrace, ['{'], 2⟩, ⟨.ws, [' '], 3⟩, ⟨.percent, ['%'], 4⟩,
+    ⟨.word, ['g'], 5⟩, ⟨.closeBrace, ['}'], 6⟩], 0, ⟨0⟩, toyCharSpec, #[], none⟩
+example : ∃ body note s1 s2 s3 s4, Cut .at C07_exEmptyVal [] body s1 s2 s3 ∧ noteP s3 = (note, s4) ∧
+    body.quantity = some ([⟨.ws, [' '], 3⟩] ++ ([] ++ ([] ++ ⟨.percent, ['%'], 4⟩ :: [⟨.word, ['g'], 5⟩]))) ∧
+    (buildText (curOff s2) body.name).isTextEmpty C07_exEmptyVal.cs = false :=
+  ⟨_, _, _, _, _, _, ⟨⟨_, rfl⟩, rfl, rfl⟩, rfl, rfl, rfl⟩
+example : (ingredientP C07_exEmptyVal).2.evs = #[.error ⟨.error, .parse, "empty-value", [⟨4, 4⟩]⟩] := rfl
+def C07_exEmptyValLock : BP Rat :=
+  ⟨[⟨.at, ['@'], 0⟩, ⟨.word, ['x'], 1⟩, ⟨.openBrace, ['{'], 2⟩, ⟨.eq, ['='], 3⟩, ⟨.percent, ['%'], 4⟩,
+    ⟨.word, ['g'], 5⟩, ⟨.closeBrace, ['}'], 6⟩], 0, ⟨0⟩, toyCharSpec, #[], none⟩
+example : ∃ body s1 s2 s3, Cut .at C07_exEmptyValLock [] body s1 s2 s3 ∧
+    body.quantity = some ([] ++ ([⟨.eq, ['='], 3⟩] ++ ([] ++ ⟨.percent, ['%'], 4⟩ :: [⟨.word, ['g'], 5⟩]))) :=
+  ⟨_, _, _, _, ⟨⟨_, rfl⟩, rfl, rfl⟩, rfl⟩
+example : (ingredientP C07_exEmptyValLock).2.evs = #[.error ⟨.error, .parse, "empty-value", [⟨4, 4⟩]⟩] := rfl
 
 /-! non-vacuity: `( )`, `(~=1)`, `(-1)` as token lists; a blank value -/
 example : ([⟨.ws, [' '], 3⟩] : List Tok).filter nonBlankTok = [] := by decide
